@@ -28,6 +28,7 @@ type Disk struct {
 	log [][]Op // one entry per write boundary
 	// KeepLog enables boundary recording (needed for snapshots).
 	KeepLog bool
+	base    map[string][]byte // contents when StartLog was called
 	// Ctx is copied into CtxLog on each boundary (set by the driver).
 	Ctx    string
 	CtxLog []string
@@ -103,6 +104,18 @@ func (d *Disk) Close()                    {}
 func (d *Disk) Print()                    {}
 func (d *Disk) Stats() map[string]string  { return map[string]string{"database.type": "simdisk"} }
 
+// StartLog starts recording write boundaries; SnapshotAt(k) then yields the
+// current contents plus the first k boundaries written from now on.
+func (d *Disk) StartLog() {
+	d.mu.Lock()
+	defer d.mu.Unlock()
+	d.base = make(map[string][]byte, len(d.m))
+	for k, v := range d.m {
+		d.base[k] = v
+	}
+	d.log, d.CtxLog, d.KeepLog = nil, nil, true
+}
+
 // Boundaries returns the number of write boundaries so far.
 func (d *Disk) Boundaries() int {
 	d.mu.Lock()
@@ -122,6 +135,9 @@ func (d *Disk) SnapshotAt(k int) *Disk {
 	d.mu.Lock()
 	defer d.mu.Unlock()
 	n := New()
+	for key, v := range d.base {
+		n.m[key] = v
+	}
 	for _, ops := range d.log[:k] {
 		for _, o := range ops {
 			if o.Del {
